@@ -2,10 +2,10 @@ package checks
 
 import (
 	"fmt"
-	"regexp"
 	"math/rand"
 	"os"
 	"path/filepath"
+	"regexp"
 	"strconv"
 	"strings"
 	"time"
